@@ -135,7 +135,12 @@ const NUM_EDGE: [&str; 8] = [
 ];
 /// 32-bit boundaries: parser leg only (a SETBIT/SETRANGE at 2^32 would allocate 512 MB when executed)
 const NUM_MID: [&str; 6] = ["2147483647", "2147483648", "-2147483648", "-2147483649", "4294967295", "4294967296"];
-const NUM_ODD: [&str; 14] = ["1.5", "-0.5", "1e2", "inf", "-inf", "nan", "+1", "01", " 1", "1 ", "-0", "0x10", "1_0", "(1"];
+const NUM_ODD: [&str; 24] = ["1.5", "-0.5", "1e2", "inf", "-inf", "nan", "+1", "01", " 1", "1 ", "-0", "0x10", "1_0", "(1", "-01", "-007", "-00", "+0", "00", "--1", "-", "+", "1.0", "-1 "];
+/// spellings substituted for every integer-looking argument of frames both parsers accept
+const INT_SPELLINGS: [&str; 30] = [
+    "0", "7", "-7", "+7", "07", "-07", "-007", "007", "-0", "+0", "00", "-00", " 7", "7 ", "7\n", "0x7", "7e0", "7.0", "-", "+", "", "--7", "1_0",
+    "9223372036854775807", "9223372036854775808", "-9223372036854775808", "-9223372036854775809", "09223372036854775807", "-09223372036854775808", "18446744073709551616",
+];
 
 fn bulk(s: &str) -> Tree {
     Tree::Bulk(Some(s.as_bytes().to_vec()))
@@ -356,6 +361,8 @@ fn frame_bytes(elems: &[Tree]) -> Vec<u8> {
 struct PStats {
     frames_per_name: BTreeMap<String, u64>,
     ok_names: BTreeSet<String>,
+    /// up to 2 frames per (name, length, keyword skeleton) that both parsers accepted identically
+    accepted: BTreeMap<(String, usize, Vec<String>), Vec<Vec<Tree>>>,
 }
 
 /// Evaluate one frame (element 0 = command name) with all oracles of leg 1.
@@ -374,6 +381,13 @@ fn check_frame(rep: &mut Report, v: &Vocab, st: &mut PStats, elems: &[Tree]) {
     *st.frames_per_name.entry(name.clone()).or_insert(0) += 1;
     if matches!(a, P::Ok(_)) && matches!(b, P::Ok(_)) {
         st.ok_names.insert(name.clone());
+        if a == b && elems.len() > 1 && elems.iter().all(|t| matches!(t, Tree::Bulk(Some(_)))) {
+            let skel: Vec<String> = elems[1..].iter().map(|t| { let c = tok_class(t, v); if c.starts_with("kw") { c } else { "_".into() } }).collect();
+            let e = st.accepted.entry((name.clone(), elems.len(), skel)).or_default();
+            if e.len() < 2 {
+                e.push(elems.to_vec());
+            }
+        }
     }
     let args = if elems.is_empty() { &elems[..] } else { &elems[1..] };
     let opts: BTreeSet<String> = args.iter().map(|t| tok_class(t, v)).filter(|c| c.starts_with("kw")).collect();
@@ -429,7 +443,7 @@ fn enumerate(palette: &[Tree], max_len: usize, mut f: impl FnMut(&[Tree]) -> boo
 pub fn parsers_leg(args: &Args) {
     let mut rep = Report::new("C16", "parsers");
     let v = scrape(args, &mut rep);
-    let mut st = PStats { frames_per_name: BTreeMap::new(), ok_names: BTreeSet::new() };
+    let mut st = PStats { frames_per_name: BTreeMap::new(), ok_names: BTreeSet::new(), accepted: BTreeMap::new() };
     if let Some(p) = &args.replay {
         let w: serde_json::Value = serde_json::from_str(&std::fs::read_to_string(p).expect("replay file")).expect("json");
         let bytes = unlossy(w["witness"]["frame"].as_str().unwrap_or(""));
@@ -493,6 +507,62 @@ pub fn parsers_leg(args: &Args) {
                 rep.sample(json!({"frame": lossy(&frame_bytes(&f)), "from_resp": format!("{:?}", a), "from_resp_zero_copy": format!("{:?}", b)}));
             }
         }
+    }
+    // (4) option-unit sequences: 0-3 plain arguments, then 1-3 units `KEYWORD [value]` with repetition allowed
+    //     (a repeated or conflicting option, an option before its operands, a dangling keyword)
+    for name in &v.names {
+        let kws = &v.kw[name];
+        if kws.is_empty() {
+            continue;
+        }
+        let mut units: Vec<Vec<Tree>> = vec![];
+        for k in kws.iter() {
+            units.push(vec![bulk(k)]);
+            units.push(vec![bulk(k), bulk("7")]);
+        }
+        let max_units = if units.len() <= 16 { 3 } else if units.len() <= 40 { 2 } else { 1 };
+        for prefix in 0..=3usize {
+            let pre: Vec<Tree> = [bulk("a"), bulk("1"), bulk("b")][..prefix].to_vec();
+            for nu in 1..=max_units {
+                for n in 0..units.len().pow(nu as u32) {
+                    if !mine(&mut idx) {
+                        continue;
+                    }
+                    let (mut x, mut f) = (n, vec![bulk(name)]);
+                    f.extend(pre.iter().cloned());
+                    let mut chosen = vec![];
+                    for _ in 0..nu {
+                        chosen.push(x % units.len());
+                        x /= units.len();
+                    }
+                    for c in chosen {
+                        f.extend(units[c].iter().cloned());
+                    }
+                    check_frame(&mut rep, &v, &mut st, &f);
+                    rep.count("gen:option_units");
+                }
+            }
+        }
+    }
+    // (5) integer spellings: in frames both parsers accepted, every argument that reads as an integer is
+    //     replaced in turn by each non-canonical / boundary spelling
+    let accepted: Vec<Vec<Tree>> = st.accepted.values().flatten().cloned().collect();
+    for f in &accepted {
+        for pos in 1..f.len() {
+            let is_int = matches!(&f[pos], Tree::Bulk(Some(b)) if std::str::from_utf8(b).ok().and_then(|s| s.parse::<i128>().ok()).is_some());
+            if !is_int {
+                continue;
+            }
+            for sp in INT_SPELLINGS.iter() {
+                let mut g = f.clone();
+                g[pos] = bulk(&sp.replace("\\n", "\n"));
+                check_frame(&mut rep, &v, &mut st, &g);
+                rep.count("gen:int_spelling");
+            }
+        }
+    }
+    if rep.counters.get("gen:int_spelling").copied().unwrap_or(0) == 0 || rep.counters.get("gen:option_units").copied().unwrap_or(0) == 0 {
+        rep.inconclusive("no integer-spelling substitution or no option-unit sequence was generated");
     }
     // observed enough?
     let unseen: Vec<&String> = v.names.iter().filter(|n| !st.frames_per_name.contains_key(*n)).collect();
